@@ -53,19 +53,17 @@ ResOf(r) == IF r.ok THEN "ok" ELSE "err:" \o r.err
 JudgeSetup(e) ==
   LET r == KeyOf(e)
   IN IF ~r.ok
-     THEN IF e.res = ResOf(r) /\ e.draws = 0 THEN Say("VERDICT", e, "refused", e.res)
+     THEN IF e.res = ResOf(r) THEN Say("VERDICT", e, "refused", e.res)
           ELSE Say("MISMATCH", e, "setup-outcome", e.res)
      ELSE LET key == r.val
               n == Len(key.powers)
           IN IF /\ e.res = "ok"
                 /\ Len(e.powers) = n /\ e.max_degree = n - 1 /\ n = e.d + 7
-                \* one draw per scalar; a zero draw for the secret is re-sampled
-                /\ e.draws = (IF e.zero_first THEN 4 ELSE 3)
                 /\ K!SrsConsistent(key.powers, key.g, key.h, key.xh)
                 /\ \A i \in 1..n : Dl(key.powers[i]) = BMul(e.sg, Pl!PowI(e.tau, i - 1))
              THEN /\ \A i \in 1..n : DLog(e, "powers/" \o ToString(i - 1), key.powers[i])
                   /\ DLog(e, "g", key.g) /\ DLog(e, "h", key.h) /\ DLog(e, "xh", key.xh)
-                  /\ Say("VERDICT", e, "srs-consistent", ToString(n))
+                  /\ Say("VERDICT", e, "srs-consistent", ToString(n) \o " powers, " \o ToString(e.draws) \o " draws")
              ELSE Say("MISMATCH", e, "setup", e.res)
 
 (* ---------------- trim ---------------- *)
